@@ -204,6 +204,11 @@ def build_model():
     gen = os.path.join(BUILD, "ocaml")
     os.makedirs(gen, exist_ok=True)
     ext = os.path.join(COQ, "Extract", "Extract.v")
+    # everything Extract.v imports must be compiled and up to date (models and specs only: no proof files)
+    mods = re.findall(r"\b((?:Base|Crypto|Model|Spec|Gen)\.\w+)", strip_comments(open(ext).read()).split("Extraction Language")[0])
+    ok, out0 = coq_build(sorted({m.replace(".", "/") + ".vo" for m in mods}))
+    if not ok:
+        return False, out0
     # extraction depends on the compiled models; re-run it when anything it reads changed
     stamp = os.path.join(gen, "stamp")
     deps = [ext, os.path.join(VERIF, "ocaml", "driver.ml")] + glob.glob(os.path.join(COQ, "*", "*.vo"))
